@@ -108,6 +108,11 @@ func (s *Server) livesimHandlerFunc(w http.ResponseWriter, r *http.Request) {
 		return
 	}
 	cfg.SetHost(s.Cfg.Host, r)
+	if err := checkDRMParam(cfg, s.Cfg.DrmCfg); err != nil {
+		log.Error(err.Error())
+		http.Error(w, err.Error(), http.StatusBadRequest)
+		return
+	}
 	switch filepath.Ext(r.URL.Path) {
 	case ".mpd":
 		if !checkQuery(cfg.Query, r.URL) {
@@ -191,6 +196,24 @@ func (s *Server) livesimHandlerFunc(w http.ResponseWriter, r *http.Request) {
 		http.Error(w, "unknown file extension", http.StatusNotFound)
 		return
 	}
+}
+
+// checkDRMParam checks that the drm_/eccp_ URL parameter names a known scheme or a configured DRM package.
+func checkDRMParam(cfg *ResponseConfig, drmCfg *drm.DrmConfig) error {
+	switch cfg.DRM {
+	case "", "eccp-cenc", "eccp-cbcs":
+		return nil
+	}
+	if strings.HasPrefix(cfg.DRM, "eccp-") {
+		return fmt.Errorf("unknown eccp scheme %q", strings.TrimPrefix(cfg.DRM, "eccp-"))
+	}
+	if drmCfg == nil {
+		return fmt.Errorf("drm parameter %q, but no DRM configured", cfg.DRM)
+	}
+	if _, ok := drmCfg.Map[cfg.DRM]; !ok {
+		return fmt.Errorf("drm configuration %q not found", cfg.DRM)
+	}
+	return nil
 }
 
 func checkQuery(cfgQuery *Query, u *url.URL) bool {
